@@ -96,13 +96,13 @@ package libtime
 
 //@ func BuiltinDurationSeconds
 //@   requires envOK(env) && args1(args)
-//@   ensures  [ns-over-1e9] old(isDur(args.Cells[0])) ==> result != nil && result.Type == lisp.LFloat && same(result.Float, float64(old(args.Cells[0].Native.(time.Duration))) / float64(1000000000))
+//@   ensures  [ns-over-1e9] old(isDur(args.Cells[0])) ==> result != nil && result.Type == lisp.LFloat && identical(result.Float, float64(old(args.Cells[0].Native.(time.Duration))) / float64(1000000000))
 //@   ensures  [rejects] !old(isDur(args.Cells[0])) ==> isErr(result)
 //@   property C15
 
 //@ func BuiltinDurationMS
 //@   requires envOK(env) && args1(args)
-//@   ensures  [ns-over-1e6] old(isDur(args.Cells[0])) ==> result != nil && result.Type == lisp.LFloat && same(result.Float, float64(old(args.Cells[0].Native.(time.Duration))) / float64(1000000))
+//@   ensures  [ns-over-1e6] old(isDur(args.Cells[0])) ==> result != nil && result.Type == lisp.LFloat && identical(result.Float, float64(old(args.Cells[0].Native.(time.Duration))) / float64(1000000))
 //@   ensures  [rejects] !old(isDur(args.Cells[0])) ==> isErr(result)
 //@   property C15
 
